@@ -185,6 +185,146 @@ func continueFromOlder(c *fw.Ctx, x *v2History, cfg v2cfg, dir string, t int64, 
 	checkV2Reads(c, h.tree, x.M.Vers[x.M.Latest], x.universe, -1, "continued-from-older", hist, c.Rng, 20)
 }
 
+// runBigPrune is NOT part of the registered check (see DESIGN.md, section 7.2, round 5): it lets a
+// large background prune overlap with further commits, and that overlap can kill the process in the
+// unchanged v2 code (unsynchronised memo map in VersionRange.FindMemoized), which no property covers.
+//
+// runBigPrune: a prune with a large backlog (3000 keys, 10 versions of 300 updates) is requested
+// right before the history goes on across the next checkpoint, without waiting for the background
+// pruning in between; afterwards the checkpoint at the prune point, the next checkpoint and the
+// latest version must reload exactly.
+func runBigPrune(c *fw.Ctx) {
+	rng := c.Rng
+	cfg := v2cfg{5, int8(c.Index / 32 % 2), -1, c.Index/64%2 == 1}
+	dir := filepath.Join(c.TmpDir, fmt.Sprintf("v2big-%d", c.Index))
+	os.RemoveAll(dir)
+	os.MkdirAll(dir, 0o755)
+	defer os.RemoveAll(dir)
+	h, err := openV2(dir, cfg)
+	if err != nil {
+		c.Res.Inconcl = "cannot open sqlite: " + err.Error()
+		return
+	}
+	x := &v2History{c: c, cfg: cfg, h: h, M: model.New(0), R: ref.NewHistory(0), hashes: map[int64][]byte{}}
+	const nkeys = 3000
+	for i := 0; i < nkeys; i++ {
+		x.universe = append(x.universe, []byte(fmt.Sprintf("b%05d", i)))
+	}
+	c.Res.Digest = fw.DigestOf("big-prune", cfg, c.Index)
+	writeSet := func(first bool) []v2op {
+		var ops []v2op
+		if first {
+			for _, k := range x.universe {
+				x.vc++
+				ops = append(ops, v2op{k: k, v: []byte(fmt.Sprintf("v%d", x.vc))})
+			}
+			return ops
+		}
+		start := rng.Intn(nkeys)
+		for i := 0; i < 300; i++ {
+			x.vc++
+			ops = append(ops, v2op{k: x.universe[(start+i*7)%nkeys], v: []byte(fmt.Sprintf("v%d", x.vc))})
+		}
+		// (at most one write per key per version)
+		seen := map[string]bool{}
+		out := ops[:0]
+		for _, o := range ops {
+			if !seen[string(o.k)] {
+				seen[string(o.k)] = true
+				out = append(out, o)
+			}
+		}
+		return out
+	}
+	commitN := func(n int, first bool) bool {
+		for i := 0; i < n; i++ {
+			if !x.commit(writeSet(first && i == 0)) {
+				return false
+			}
+			x.log = x.log[:0] // (the write sets are too long to print)
+		}
+		return true
+	}
+	if !commitN(11, true) {
+		h.close()
+		return
+	}
+	if err := h.tree.DeleteVersionsTo(11); err != nil {
+		c.Violate(11, "v2p|big-prune|error", "DeleteVersionsTo(11): %v", err)
+		h.close()
+		return
+	}
+	// the history goes on at once, across the next checkpoint (16)
+	if !commitN(5, false) {
+		h.close()
+		return
+	}
+	drained := false
+	for i := 0; i < 6000; i++ { // (up to 120 s on a stalled machine)
+		time.Sleep(20 * time.Millisecond)
+		r, err := rootRows(dir)
+		if err != nil {
+			continue
+		}
+		below := 0
+		for v := range r {
+			if v < 11 {
+				below++
+			}
+		}
+		if below == 0 && leafPruneDone(dir, 11) {
+			drained = true
+			break
+		}
+	}
+	if !commitN(1, false) {
+		h.close()
+		return
+	}
+	time.Sleep(60 * time.Millisecond)
+	h.close()
+	if !drained {
+		c.Obs("v2_big_prunes_not_drained_within_bound", 1)
+		return
+	}
+	hist := fmt.Sprintf("{%s} 3000 keys; v1 sets all, v2..v11 update 300 keys each; DeleteVersionsTo(11); v12..v16 at once (checkpoint interval 5); pruning drained; v17; closed, reopened", cfg)
+	for _, t := range []int64{11, 16, 17} {
+		re, err := openV2(dir, cfg)
+		if err != nil {
+			c.Res.Inconcl = err.Error()
+			return
+		}
+		var lerr error
+		func() {
+			defer func() {
+				if r := recover(); r != nil {
+					lerr = fmt.Errorf("panic: %v", r)
+				}
+			}()
+			lerr = re.tree.LoadVersion(t)
+		}()
+		if lerr != nil {
+			c.Violate(int(t), "v2p|big-prune|load-error", "LoadVersion(%d): %v; %s", t, lerr, hist)
+			re.close()
+			return
+		}
+		func() {
+			defer func() {
+				if r := recover(); r != nil {
+					c.Violate(int(t), "v2p|big-prune|read-panic", "reading version %d: %v; %s", t, r, hist)
+				}
+			}()
+			checkLoaded(c, re.tree, t, x.M.Vers[t], x.hashes[t], x.universe, "big-prune", hist)
+		}()
+		re.close()
+		if len(c.Res.Violations) > 0 {
+			return
+		}
+	}
+	c.Obs("v2_big_prunes_across_a_checkpoint", 1)
+	c.Res.Nontrivial = true
+}
+
 // lockedCommit: a second SQLite connection holds the write lock of changelog.sqlite or tree.sqlite
 // while ONE version is committed (as a backup job or a sqlite3 shell would). Only acknowledged
 // commits are judged: if SaveVersion reports the failure nothing is asked of that version; if it
@@ -654,3 +794,4 @@ func rootHashOf(n *iavl2.Node) []byte {
 	}
 	return n.GetHash()
 }
+var _ = runBigPrune
